@@ -218,6 +218,8 @@ pub fn render_line(spec: &LineSpec, t: &str) -> String {
 #[derive(Clone, Debug, PartialEq, Eq, Serialize, Deserialize)]
 pub enum Edit {
     Insert { pos: u16, lines: Vec<LineSpec> },
+    /// insert at an absolute line index (clamped to the file length)
+    InsertAt { idx: u16, lines: Vec<LineSpec> },
     Delete { pos: u16, count: u8 },
     Replace { pos: u16, count: u8, lines: Vec<LineSpec> },
     TokenAppend { pos: u16 },
@@ -239,6 +241,7 @@ impl Edit {
     pub fn kind(&self) -> &'static str {
         match self {
             Edit::Insert { .. } => "insert",
+            Edit::InsertAt { .. } => "insert",
             Edit::Delete { .. } => "delete",
             Edit::Replace { .. } => "replace",
             Edit::TokenAppend { .. } => "token-append",
@@ -307,6 +310,16 @@ pub fn apply_edit(fs: &mut FileState, model: &mut Model, who: Actor, edit: &Edit
     match edit {
         Edit::Insert { pos, lines } => {
             insert_lines(fs, model, who, *pos, lines);
+        }
+        Edit::InsertAt { idx, lines } => {
+            let i = (*idx as usize).min(fs.lines.len());
+            let specs: Vec<LineSpec> = if lines.is_empty() { vec![LineSpec { style: 1, indent: 0 }] } else { lines.clone() };
+            for (n, s) in specs.iter().enumerate() {
+                let t = model.fresh_token();
+                let l = render_line(s, &t);
+                model.wrote(&l, who, true);
+                fs.lines.insert(i + n, l);
+            }
         }
         Edit::Delete { pos, count } => {
             if fs.lines.is_empty() {
